@@ -84,6 +84,10 @@ def gen_cases(tier, verif_seed):
             route = 'wsgi'
         if site.startswith('gen') and route == 'sb':
             route = 'wsgi'
+        if kind == 'fault_awkward' and route == 'sb':
+            # the bare pipeline leaves a failing serialisation (also of a
+            # fault) to its caller, the transport: only transports are judged
+            route = 'wsgi'
         in_prot = IN_FOR_OUT[out]
         if rng.random() < .2 and route == 'wsgi' and out != 'httprpc':
             in_prot = 'httprpc'
@@ -298,6 +302,23 @@ def judge(case, uni, info, body, raised):
         viol('no-fault', 'user code raised %s but the response is not a fault'
                                                      % exc['kind'])
         return _result(case, V, info, None)
+    code, string, detail = got
+    if ExcSpec.is_awkward(exc):
+        # the payload may be unrepresentable in this protocol: a well-formed
+        # fault in the raised code's family or the generic Server fault is all
+        # that can be asked for (plus: nothing escaped, checked above)
+        fam_ok = (code == exc['code'] or code == 'Server' or
+                  (isinstance(code, str) and
+                   code.split('.')[0] == exc['code'].split('.')[0]))
+        if not fam_ok:
+            viol('awkward-code', 'unrepresentable fault payload (%s) answered '
+                 'with code %r' % (exc['variant'], got[0]))
+        st = (info.get('status') or '')[:1]
+        if route in ('wsgi', 'client') and st not in ('4', '5'):
+            viol('awkward-status', 'unrepresentable fault payload (%s) '
+                 'answered with status %r' % (exc['variant'],
+                                              info.get('status')))
+        return _result(case, V, info, got)
     want = ExcSpec.expected(exc)
     if out_prot in XML_FAMILY and want[1]:
         # XML 1.0 cannot carry these at all: U+FFFD in their place is as
